@@ -109,6 +109,7 @@ impl World {
         let mut tasks = vec![];
         tasks.push(rt.spawn(sv::startup(scfg.clone())));
         let links: Arc<std::sync::Mutex<Vec<tokio::task::AbortHandle>>> = Arc::default();
+        let is2022 = cipher.starts_with("2022");
         if link {
             let links = links.clone();
             let l = rt.block_on(TcpListener::bind(("127.0.0.1", link_port)))?;
@@ -121,11 +122,16 @@ impl World {
                             let (mut a, mut b) = (a, b);
                             if chop {
                                 // forward in small pieces of changing size with tiny pauses: the peer's reads end anywhere inside frames
-                                async fn pump(mut r: tokio::net::tcp::OwnedReadHalf, mut w: tokio::net::tcp::OwnedWriteHalf, mut x: u64) {
+                                async fn pump(mut r: tokio::net::tcp::OwnedReadHalf, mut w: tokio::net::tcp::OwnedWriteHalf, mut x: u64, mut first: Option<usize>) {
                                     let mut buf = vec![0u8; 4096];
                                     loop {
                                         x = x.wrapping_mul(6364136223846793005).wrapping_add(1442695040888963407);
-                                        let n = 1 + (x >> 33) as usize % [7usize, 61, 300, 1400, 4096][(x >> 20) as usize % 5];
+                                        let mut n = 1 + (x >> 33) as usize % [7usize, 61, 300, 1400, 4096][(x >> 20) as usize % 5];
+                                        // the first piece towards the client ends inside the response's first frames (between a
+                                        // header's sealed length and its sealed body, inside a salt, …): a different place per connection
+                                        if let Some(f) = first.take() {
+                                            n = f;
+                                        }
                                         match r.read(&mut buf[..n]).await {
                                             Ok(0) | Err(_) => break,
                                             Ok(k) => {
@@ -140,7 +146,11 @@ impl World {
                                 }
                                 let (ar, aw) = a.into_split();
                                 let (br, bw) = b.into_split();
-                                let _ = tokio::join!(pump(ar, bw, 1), pump(br, aw, 2));
+                                static CONN: std::sync::atomic::AtomicUsize = std::sync::atomic::AtomicUsize::new(0);
+                                let k = CONN.fetch_add(1, std::sync::atomic::Ordering::Relaxed);
+                                // (Shadowsocks 2022 asks for salt + fixed header in the first read: that one boundary is exempt)
+                                let firsts = if is2022 { [200usize; 10] } else { [20usize, 37, 18, 1, 30, 25, 16, 33, 2, 40] };
+                                let _ = tokio::join!(pump(ar, bw, 1 + k as u64 * 2, if is2022 { Some(96) } else { None }), pump(br, aw, 2 + k as u64 * 2, Some(firsts[k % firsts.len()])));
                             } else {
                                 let _ = tokio::io::copy_bidirectional(&mut a, &mut b).await;
                             }
